@@ -46,7 +46,12 @@ MANIFEST = dict(
           "objects under known_xml chains; the real html.parser event stream of the real rendered text against emitR; the real "
           "re-parse against build/normaliseL and the second against normalise∘normalise; independent Python oracle of the round "
           "trip, the second round trip, the empty-element rule, script/style verbatim and detached rendering; exhaustive small "
-          "trees of identical tags for the `!=` stack comparison; the class/registry tables exhaustively."),
+          "trees of identical tags for the `!=` stack comparison; the class/registry tables exhaustively; builder configurations "
+          "empty_element_tags in {default, None, set(), {br}, {p,br}} on the first parse / new_tag and the re-parse (model: "
+          "PCfg.voidAll/voidTags, driver op tripc); element names a refactoring might add to a cdata set (iframe, xmp, noembed, "
+          "noframes, plaintext, noscript, textarea, title, template) with entity look-alikes and tag-like text inside; a bytes "
+          "stream (Python oracle only): encode(enc) for eleven encodings, the bytes parsed again with from_encoding=enc or via the "
+          "rewritten <meta charset>, same tree demanded."),
     design="7/C05",
     note=("CPython's tokenizer is not modelled: its events for each rendered text are recorded and compared with emitR (tag/"
           "comment/declaration/PI tokenisation, CDATA-content mode); character data and attribute values are read back through "
@@ -67,6 +72,38 @@ TEXT_CLASSES = {"NavigableString", "Stylesheet", "Script", "TemplateString", "Ru
 # ---- the property's HTML facts, hard-coded (NOT read from the live tables) ---------------------------------------
 P_VOID = {"area", "base", "br", "col", "embed", "hr", "img", "input", "keygen", "link", "menuitem", "meta", "param",
           "source", "track", "wbr", "basefont", "bgsound", "command", "frame", "image", "isindex", "nextid", "spacer"}
+# the builder configuration of the case at hand (first parse / new_tag and the re-parse use the same one):
+# "D" = default empty_element_tags, "N" = None (every tag may be an empty-element tag), or a list of names (possibly empty)
+CUR = {"eet": "D"}
+
+
+def set_config(recipe):
+    CUR["eet"] = recipe.get("eet", "D") if isinstance(recipe, dict) else "D"
+
+
+def is_void(nm):
+    e = CUR["eet"]
+    if e == "D":
+        return nm in P_VOID
+    if e == "N":
+        return True
+    return nm in e
+
+
+def builder_kwargs():
+    e = CUR["eet"]
+    if e == "D":
+        return {}
+    return {"empty_element_tags": None if e == "N" else set(e)}
+
+
+def cfg_tok():
+    e = CUR["eet"]
+    if e in ("D", "N"):
+        return e
+    return ";".join(dots(x) for x in e) or "-"
+
+
 P_PRESERVE = {"pre", "textarea"}
 P_CONTAINERS = {"script": "Script", "style": "Stylesheet", "template": "TemplateString", "rt": "RubyTextString",
                 "rp": "RubyParenthesisString"}
@@ -246,7 +283,7 @@ def o_normalise(forest, pres=False, cont=None, decl_as_pi=False):
         else:
             flush()
             nm = o_full(st)
-            out.append(("T", nm, None, o_attrs(nm, st[3]), nm in P_VOID, False,
+            out.append(("T", nm, None, o_attrs(nm, st[3]), is_void(nm), False,
                         o_normalise(st[6], pres or nm in P_PRESERVE, P_CONTAINERS.get(nm, cont), decl_as_pi)))
     flush()
     return out
@@ -281,7 +318,7 @@ def o_representable(forest, xml):
                 return "hidden-element"
             if not TAG_RE.match(nm):
                 return "tag-name"
-            if nm in P_VOID and st[6]:
+            if is_void(nm) and st[6]:
                 return "void-with-children"
             writer_raw = (not xml) and st[1] in P_RAW
             if writer_raw != (nm in P_RAW):
@@ -425,10 +462,10 @@ def merge_data(evs):
 # --------------------------------------------------------------------------------------------------------------
 # building real trees
 # --------------------------------------------------------------------------------------------------------------
-def parse(markup):
+def parse(markup, **kw):
     with warnings.catch_warnings():
         warnings.simplefilter("ignore")
-        return E()["BeautifulSoup"](markup, "html.parser")
+        return E()["BeautifulSoup"](markup, "html.parser", **builder_kwargs(), **kw)
 
 
 def make_node(soup, spec, xml):
@@ -551,7 +588,9 @@ ATOMS = ["&", "<", ">", '"', "'", ";", "#", "x", "0", "1", "9", "a", "b", " ", "
 HOSTILE = ["-->", "--", "]]>", "</", "</script>", "</style>", "<!--", "<b>", "<br/>", "?>", "\ud800", "]]", "->", "</p>"]
 
 TAG_NAMES = ["p", "div", "b", "a", "span", "ul", "li", "td", "th", "form", "pre", "textarea", "script", "style", "template",
-             "ruby", "rt", "rp", "title", "h1", "x-y", "a:b", "svg:g", "custom.el", "t_1", "link", "object"]
+             "ruby", "rt", "rp", "title", "h1", "x-y", "a:b", "svg:g", "custom.el", "t_1", "link", "object",
+             # names a refactoring might add to a raw-text / cdata set (HTML5 raw text and escapable raw text elements)
+             "iframe", "xmp", "noembed", "noframes", "plaintext", "noscript", "textarea", "title", "template"]
 VOID_NAMES = ["br", "hr", "img", "input", "meta", "wbr", "area", "col"]
 XML_NAMES = ["root", "item", "ns:item", "a", "b", "x-y", "script", "br", "data_1", "p"]
 ATTR_NAMES = ["id", "class", "href", "title", "data-x", "rel", "headers", "a:b", "_x", "x.y", "alt", "name", "accesskey",
@@ -647,12 +686,12 @@ def rand_tag_spec(r, depth, budget, hostile, xml):
         name = r.choice(["P", "a b", "1x", "a>b", "él", "x/y", "DIV"])
     mode = r.choice(["new_tag", "ctor", "ctor", "plain"])
     cbe = r.random() < (0.5 if xml else 0.3)
-    if not xml and mode != "new_tag" and name in P_VOID and r.random() < 0.8:
+    if not xml and mode != "new_tag" and is_void(name) and r.random() < 0.8:
         cbe = True
     attrs = rand_attrs(r, hostile, xml)
     kids = []
     full = (prefix + ":" if prefix else "") + name
-    childless = (full in P_VOID and not (hostile and r.random() < 0.5)) or r.random() < 0.15
+    childless = (is_void(full) and not (hostile and r.random() < 0.5)) or r.random() < 0.15
     if not childless and depth < 4:
         nk = r.choice([0, 1, 1, 2, 2, 3, 4])
         for _ in range(nk):
@@ -694,7 +733,7 @@ def rand_ops(r, soup_kids_spec, hostile, xml):
         if kind in ("append", "insert", "string", "clear"):
             t, p = r.choice(tags)
             full = (t.prefix + ":" if t.prefix else "") + t.name
-            if not hostile and (full in P_VOID or full in P_RAW or t.name in P_RAW):
+            if not hostile and (is_void(full) or full in P_RAW or t.name in P_RAW):
                 continue
             if kind == "append":
                 op = ["append", p, fresh]
@@ -709,7 +748,8 @@ def rand_ops(r, soup_kids_spec, hostile, xml):
         elif kind == "move":
             n, p = r.choice(nodes)
             dests = [(t, q) for t, q in tags if q[:len(p)] != p]
-            dests = [(t, q) for t, q in dests if hostile or ((t.prefix + ":" if t.prefix else "") + t.name not in P_VOID | P_RAW
+            dests = [(t, q) for t, q in dests if hostile or (not is_void((t.prefix + ":" if t.prefix else "") + t.name)
+                                                             and (t.prefix + ":" if t.prefix else "") + t.name not in P_RAW
                                                              and t.name not in P_RAW)]
             if not dests:
                 continue
@@ -725,7 +765,8 @@ def rand_ops(r, soup_kids_spec, hostile, xml):
             if not hostile and n.parent is not soup and n.parent.name in P_RAW:
                 continue
             w = rand_tag_spec(r, 4, [0], hostile, xml)
-            if not hostile and ((w[3] + ":" if w[3] else "") + w[2] in P_VOID | P_RAW or w[2] in P_RAW):
+            if not hostile and (is_void((w[3] + ":" if w[3] else "") + w[2]) or (w[3] + ":" if w[3] else "") + w[2] in P_RAW
+                                or w[2] in P_RAW):
                 continue
             w[6] = []
             op = ["wrap", p, w]
@@ -1121,7 +1162,8 @@ def roundtrip_checks(ctx, batch, recipe, root, el_index, el, stream, parsed):
         if f != "minimal" and el_index != 0:
             continue
         # Lean side
-        req = f"c05 trip {'x' if xml else 'h'} {fmt_tok(f)} {tree_tokens(wrap_root(forest))}"
+        req = (f"c05 trip {'x' if xml else 'h'} {fmt_tok(f)} {tree_tokens(wrap_root(forest))}" if CUR["eet"] == "D" else
+               f"c05 tripc {cfg_tok()} {'x' if xml else 'h'} {fmt_tok(f)} {tree_tokens(wrap_root(forest))}")
         try:
             evs = merge_data(real_events(text))
         except Exception as ex:  # the tokenizer refused the text
@@ -1193,6 +1235,14 @@ def nontrivial_key(st_root):
 
 
 def check_tree(ctx, batch, recipe, stream, parsed, sub_elements=2, r=None):
+    set_config(recipe)
+    try:
+        return _check_tree(ctx, batch, recipe, stream, parsed, sub_elements, r)
+    finally:
+        set_config(None)
+
+
+def _check_tree(ctx, batch, recipe, stream, parsed, sub_elements, r):
     try:
         root = build(recipe)
     except Exception as ex:
@@ -1598,6 +1648,154 @@ def uncps_local(t):
     return "" if t in ("-", "") else "".join(chr(int(x)) for x in t.split(","))
 
 
+CONFIGS = ["D", "N", [], ["br"], ["p", "br"]]
+
+
+def stream_configs(ctx, batch, n):
+    """the builder's `empty_element_tags` in {default, None, set(), {"br"}, {"p","br"}}: first parse / new_tag and the re-parse
+    under the same configuration (TreeBuilder.can_be_empty_element, the void handling of handle_starttag)"""
+    for t in range(n):
+        r = ctx.rng("configs", t)
+        eet = CONFIGS[t % len(CONFIGS)]
+        CUR["eet"] = eet
+        try:
+            if r.random() < 0.4:
+                recipe = {"kind": "parse", "markup": gen_markup(r), "eet": eet}
+                parsed = True
+            else:
+                recipe = gen_api_recipe(r, 0.0)
+                recipe["xml"] = False
+                # builder-made tags only: can_be_empty_element comes from the configured builder
+                def force(spec):
+                    if spec[0] == "T":
+                        spec[1] = "new_tag"
+                        spec[3] = None
+                        spec[4] = [kv for kv in spec[4] if kv[1] is not None and not isinstance(kv[1], dict)]
+                        for k in spec[6]:
+                            force(k)
+                for k in recipe["kids"]:
+                    force(k)
+                recipe["kids"].append(["T", "new_tag", "p", None, [], False,
+                                       [["T", "new_tag", "br", None, [], False, [["S", "NavigableString", "in br"]] if eet in ([], ) else []],
+                                        ["S", "NavigableString", "one < two"], ["T", "new_tag", "b", None, [], False, []]]
+                                       if eet not in ("N", ["p", "br"]) else []])
+                recipe["ops"] = []
+                recipe["eet"] = eet
+                parsed = False
+        finally:
+            CUR["eet"] = "D"
+        ctx.count(f"config:{'default' if eet == 'D' else ('None' if eet == 'N' else '{' + ','.join(eet) + '}')}")
+        check_tree(ctx, batch, recipe, "configs", parsed, r=r)
+
+
+BYTE_ENCODINGS = ["iso-8859-15", "iso-8859-2", "iso-8859-5", "iso-8859-7", "koi8-r", "windows-1251", "windows-1252", "latin-1",
+                  "ascii", "utf-8", "utf-16"]
+
+
+def bytes_excluded(forest):
+    """characters whose trip through numeric references / codecs is C08's subject or a recorded C08 finding: C1 controls
+    (read back as Windows-1252), surrogates, NUL, noncharacters"""
+    def bad(s):
+        return any(0x80 <= ord(c) <= 0x9F or 0xD800 <= ord(c) <= 0xDFFF or ord(c) == 0 or 0xFDD0 <= ord(c) <= 0xFDEF
+                   or (ord(c) & 0xFFFE) == 0xFFFE or c == "\r" for c in s)
+    for st in forest:
+        if st[0] == "S":
+            if bad(st[2]):
+                return True
+        else:
+            for _, v in st[3]:
+                if isinstance(v, list):
+                    if any(bad(x) for x in v):
+                        return True
+                elif v is not None and bad(v):
+                    return True
+            if bytes_excluded(st[6]):
+                return True
+    return False
+
+
+def charref_forest(forest, enc, raw=False):
+    """the forest as it stands after xmlcharrefreplace was applied where references are not read back: special strings and
+    the raw text of script/style (known finding C05-charref-in-special-strings)"""
+    out = []
+    for st in forest:
+        if st[0] == "S":
+            if raw or st[1] not in TEXT_CLASSES:
+                out.append(("S", st[1], st[2].encode(enc, "xmlcharrefreplace").decode(enc)))
+            else:
+                out.append(st)
+        else:
+            out.append(st[:6] + (charref_forest(st[6], enc, o_full(st) in P_RAW),))
+    return out
+
+
+def stream_bytes(ctx, n):
+    """`encode(enc)` -> the BYTES parsed again knowing the encoding (from_encoding=enc, or the <meta charset> encode() rewrote):
+    same tree modulo the documented normalisations — numeric references written by xmlcharrefreplace for characters the
+    codec lacks must come back as the same characters (handle_charref, html.unescape)"""
+    e = E()
+    for t in range(n):
+        r = ctx.rng("bytes", t)
+        recipe = gen_api_recipe(r, 0.0) if r.random() < 0.7 else {"kind": "parse", "markup": gen_markup(r)}
+        if recipe["kind"] == "api":
+            recipe["xml"] = False
+            recipe["kids"].append(["T", "ctor", "p", None, [["title", r.choice(["10 ¤", "½", "é©", "a£b"])]], False,
+                                   [["S", "NavigableString", r.choice(["10 ¤ & ½", "é × ¼", "£©", "Åé¤"])]]])
+        set_config(recipe)
+        try:
+            soup = build(recipe)
+        except Exception:
+            continue
+        try:
+            st = struct(soup)
+        except ValueError:
+            continue
+        forest = st[6]
+        if any(isinstance(k, e["Tag"]) and k._is_xml for k in soup.descendants if isinstance(k, e["Tag"])):
+            continue
+        reason = o_representable(forest, False)
+        if (reason is not None and recipe["kind"] == "api") or reason == "void-with-children" or bytes_excluded(forest):
+            ctx.count("bytes:excluded")
+            continue
+        want = o_normalise(forest)
+        want_pi = o_normalise(forest, decl_as_pi=True)
+        via_meta = r.random() < 0.3
+        if via_meta:
+            soup.insert(0, soup.new_tag("meta", charset="x-replaced"))
+        for enc in r.sample(BYTE_ENCODINGS, 3):
+            for f in ROUNDTRIP_FORMATTERS:
+                case = {"recipe": recipe, "element": 0, "formatter": f, "op": "bytes", "encoding": enc, "via_meta": via_meta}
+                try:
+                    data = soup.encode(enc, formatter=f)
+                    with warnings.catch_warnings():
+                        warnings.simplefilter("ignore")
+                        back = e["BeautifulSoup"](data, "html.parser", **({} if via_meta else {"from_encoding": enc}))
+                except Exception as ex:
+                    ctx.violation(f"encode({enc!r}) / re-parse of the bytes raised {type(ex).__name__}: {ex}", case=case,
+                                  expected="a tree", observed=f"{type(ex).__name__}: {ex}", stream="bytes")
+                    continue
+                contents = back.contents[1:] if via_meta else back.contents
+                try:
+                    got = [struct(c) for c in contents]
+                except ValueError:
+                    continue
+                ctx.count(f"bytes:{enc}:{'meta' if via_meta else 'from_encoding'}")
+                if via_meta and (back.original_encoding or "").lower().replace("_", "-") not in (enc, {"latin-1": "iso-8859-1"}.get(enc, enc)):
+                    ctx.count("bytes:meta-declared-encoding-not-used")
+                    continue
+                if got != want:
+                    kf = "C05-declaration-renders-as-pi" if (has_class(forest, "Declaration") and (got == want_pi or decl_with_gt(forest))) else None
+                    if kf is None:
+                        cf = charref_forest(forest, enc)
+                        if cf != forest and got in (o_normalise(cf), o_normalise(cf, decl_as_pi=True)):
+                            kf = "C05-charref-in-special-strings"
+                    ctx.violation(f"parse(encode({enc!r})) is not the tree modulo the documented normalisations",
+                                  case=case, expected=ascii(want), observed=ascii(got), stream="bytes", kf=kf,
+                                  extra={"bytes": ascii(data)})
+        set_config(None)
+        ctx.case(None)
+
+
 def stream_table(ctx, batch):
     """exhaustive over the generated tables: every string class x every parent kind, under every formatter of both
     registries (render_checks runs all of them), both flavours — so a changed PREFIX/SUFFIX/registry entry that breaks a
@@ -1605,8 +1803,9 @@ def stream_table(ctx, batch):
     n = 0
     for xml in (False, True):
         for cls in CLASSES:
-            for parent in ("p", "script", "style", "pre", "rt", "br"):
-                for text in ("a<b&c>\"'", " \n ", "x"):
+            for parent in ("p", "script", "style", "pre", "rt", "br", "iframe", "xmp", "noembed", "noframes", "plaintext", "noscript",
+                           "textarea", "title", "template"):
+                for text in ("a<b&c>\"'", " \n ", "AT&amp;T <i>x</i>"):
                     if parent in P_RAW and cls not in TEXT_CLASSES and cls != "PreformattedString":
                         pass
                     kids = [["T", "ctor", parent, None, [["k", "v<&>\"'"]], parent == "br",
@@ -1614,7 +1813,8 @@ def stream_table(ctx, batch):
                     check_tree(ctx, batch, {"kind": "api", "xml": xml, "kids": kids, "ops": []}, "table", False,
                                sub_elements=2, r=ctx.rng("table", n))
                     n += 1
-    ctx.exhaustive_parts.append(f"{n} trees: every string class x parent in (p, script, style, pre, rt, br) x 3 texts x both flavours, "
+    ctx.exhaustive_parts.append(f"{n} trees: every string class x parent in (p, script, style, pre, rt, br, iframe, xmp, noembed, noframes, plaintext, "
+                                "noscript, textarea, title, template) x 3 texts x both flavours, "
                                 "each under every formatter of its registry")
 
 
@@ -1643,6 +1843,8 @@ def run(ctx: Ctx):
     stream_corpus(ctx, batch)
     stream_small(ctx, batch)
     stream_table(ctx, batch)
+    stream_configs(ctx, batch, ctx.n(400, 5000))
+    stream_bytes(ctx, ctx.n(250, 3000))
     stream_formatter_args(ctx, batch, ctx.n(400, 4000))
     stream_string_output_ready(ctx, batch, ctx.n(250, 2500))
     stream_doctype_ids(ctx, batch, ctx.n(300, 3000))
@@ -1707,6 +1909,7 @@ def replay(path):
     if "recipe" not in c:
         print(json.dumps(c, indent=1)[:3000])
         return 1
+    set_config(c["recipe"])
     root = build(c["recipe"])
     els = elements_preorder(root)
     el = els[c.get("element", 0)] if c.get("element", 0) >= 0 else root
@@ -1734,6 +1937,19 @@ def replay(path):
         print("third rendering:  ", ascii(text3))
         if got != want or text2 != text3:
             rc = 1
+    elif c.get("op") == "bytes":
+        st = struct(root)
+        forest = st[6]
+        if c.get("via_meta"):
+            root.insert(0, root.new_tag("meta", charset="x-replaced"))
+        data = root.encode(c["encoding"], formatter=f)
+        back = E()["BeautifulSoup"](data, "html.parser", **({} if c.get("via_meta") else {"from_encoding": c["encoding"]}))
+        contents = back.contents[1:] if c.get("via_meta") else back.contents
+        got = [struct(x) for x in contents]
+        print("bytes:            ", ascii(data))
+        print("re-parsed:        ", ascii(got))
+        print("property demands: ", ascii(o_normalise(forest)))
+        rc = 0 if got == o_normalise(forest) else 1
     elif c.get("op") == "raises":
         print("decode() returned normally")
         rc = 0
